@@ -862,10 +862,10 @@ int main(int argc, char** argv) {
 }
 
 // ---- the library sources this harness needs, compiled into this translation unit (see the note at the top) ----
-#ifndef C12_IOVECTOR_CPP
-#define C12_IOVECTOR_CPP "/repo/common/iovector.cpp"
-#endif
-#include C12_IOVECTOR_CPP
+#define VT_STR2(x) #x
+#define VT_STR(x) VT_STR2(x)
+#define VT_REPO_FILE(rel) VT_STR(VT_REPO_ROOT/rel)
+#include VT_REPO_FILE(common/iovector.cpp)
 #undef protected
-#include "/repo/common/checksum/crc.cpp"
-#include "/repo/common/checksum/crc_tables.cpp"
+#include VT_REPO_FILE(common/checksum/crc.cpp)
+#include VT_REPO_FILE(common/checksum/crc_tables.cpp)
